@@ -478,7 +478,7 @@ def gen(rng, tier):
     cp = os.path.join(vlib.VERIF, "corpus", "C05", "ops.txt")
     if os.path.exists(cp):
         ops += [l.strip() for l in open(cp) if l.strip() and not l.startswith("#")]
-    npen, nal, nbig = (1400, 260, 20) if tier == "quick" else (12000, 2500, 300)
+    npen, nal, nbig = (4000, 800, 50) if tier == "quick" else (30000, 6000, 500)
     r1 = rng.fork()
     for _ in range(npen):
         ops.append(gen_pen(r1))
@@ -544,6 +544,37 @@ def classify(op, kind, detail):
         head = detail.split(":")[0][:60]
         return f"{fam}:{head}"
     return f"{fam}:{kind}"
+
+
+# ---------------------------------------------------------------------------------------------------------
+# shrinking: drop one constraint (and its multiplier) at a time
+
+def shrink_candidates(op):
+    t = Toks(op)
+    fam = t.s(); name = t.s()
+    try:
+        n, obj, cons = parse_problem(t)
+        if fam == "pen":
+            x = t.fs(); ro = t.f(); lam = t.fs(); miu = t.fs()
+        else:
+            tail = " ".join(t.rest())
+    except Exception:
+        return
+    for k in range(len(cons)):
+        rest = cons[:k] + cons[k + 1:]
+        if obj["kind"] in ("QP", "LP") and not rest:
+            pass
+        if fam == "pen":
+            l2, m2 = list(lam), list(miu)
+            if compatible(cons[k], n):
+                before = [c for c in cons[:k] if compatible(c, n)]
+                if is_eq(cons[k]):
+                    del l2[sum(1 for c in before if is_eq(c))]
+                else:
+                    del m2[sum(1 for c in before if not is_eq(c))]
+            yield f"pen eval {problem_text(n, obj, rest)} {FL(x)} {H(ro)} {FL(l2)} {FL(m2)}"
+        else:
+            yield f"al solve {problem_text(n, obj, rest)} {tail}"
 
 
 # ---------------------------------------------------------------------------------------------------------
@@ -735,7 +766,7 @@ def oracle_pen(t, r, dump):
     return None
 
 
-def oracle_al(t, r):
+def oracle_al(t, r, answers):
     n, obj, cons = parse_problem(t)
     if r.s() != "ok":
         return "implementation did not answer ok"
@@ -776,6 +807,26 @@ def oracle_al(t, r):
             why = near(harness, v, a + 1, f"harness recomputation: {kind}", rel=1e-13)
             if why:
                 return why
+    # the same class invariant on every (valid) state the inner solver returned: their constraint values drive the
+    # convergence criterion
+    if answers is not None:
+        a = Toks(answers)
+        a.f(); a.f(); a.fs(); a.fs()
+        for k in range(a.int()):
+            iter_ok = a.int(); a.int(); cx = a.fs(); cceq = a.fs(); ccineq = a.fs()
+            if not iter_ok or not all(v == v and not math.isinf(v) for v in cx):
+                continue
+            ce = frs(cx)
+            ie = ii = 0
+            for c in acc:
+                v, _, aa, _ = constraint_exact(c, ce, n)
+                if is_eq(c):
+                    stored = cceq[ie]; ie += 1
+                else:
+                    stored = ccineq[ii]; ii += 1
+                why = near(stored, v, aa + 1, f"stored constraint value: {c['kind']} in the state of outer iteration {k}")
+                if why:
+                    return why
     # the feasibility KKT residuals are derived from the stored values
     want1 = max([0.0] + [max(v, 0.0) for v in cineq])
     want2 = max([0.0] + [abs(v) for v in ceq])
@@ -805,4 +856,5 @@ def oracle(aug, res):
     r = Toks(res)
     if fam == "pen":
         return oracle_pen(t, r, None)
-    return oracle_al(t, r)
+    parts = aug.split(" | ")
+    return oracle_al(t, r, parts[1] if len(parts) > 1 else None)
